@@ -8,10 +8,11 @@
        tags = n (k v)* ; meta = has_ts ts version changeset user uid ; type 1 node 2 way 3 relation
      (nodes, ways and relations each end with the answers of the osm methods, see pnode/pway/prel)
      unchanged: bool     the deep copy of the input taken before all runs equals the input after
-     known    : bool     the harness put the input into the known-finding class
+     known    : 0 | 1 | 2  the known-finding class the harness put the input into: 2 polygon-id-outside-
+                         packed-range (not Spec.packed_ok), else 1 shared-outer-old-style (a way adopted twice)
      runs     : n, (optbits same features)*      optbits = 1 NoID | 2 NoMeta | 4 NoRelM | 8 InclInvalid
        same   : bool     converting a second time gave the identical observation
-       feature = idtype(0 none,1,2,3) idref type ref tags tainted
+       feature = idtype(0 none,1,2,3; 4 = the type "" of an id like "/5") idref type(1,2,3; 0 = "") ref tags tainted
                  rels: flag [n (id role tags)*]  meta: flag [ts? ver? cs? user? uid?] (each 0 | 1 v)
                  geom: kind(1 point,2 line,3 polygon,4 multiline,5 multipolygon) data
    The runs must contain optbits 0 (baseline) and, if any run has bit 8, optbits 8.
@@ -21,7 +22,7 @@
               that does not carry its element, point/line/polygon/route rule, an option that
               changed more than it documents, a differing second run, a modified input
           3 = the model's reading of a method of package osm differs from what it answered (Way.Polygon,
-              Relation.Polygon, Tags.AnyInteresting), or the harness's known-finding class differs from Spec.adopts
+              Relation.Polygon, Tags.AnyInteresting), or the harness's known-finding class differs from Spec.packed_ok / Spec.adopts
           0 = case does not parse *)
 From Coq Require Import ZArith String List Bool.
 From Verif Require Import Base.Wire C17.Model C17.Mputil C17.Spec.
@@ -29,6 +30,11 @@ Import ListNotations.
 Open Scope Z_scope.
 Open Scope list_scope.
 Open Scope wire_scope.
+
+(* the known-finding class of a data set, from the input alone *)
+Definition known_class (d : osm) : Z :=
+  if negb (packed_ok d) then 2
+  else if negb (nodupb Z.eqb (flat_map (adopts d) (relations d))) then 1 else 0.
 
 Section Parse.
   Variable strtab : list string.
@@ -88,9 +94,14 @@ Section Parse.
     t <- pint ;; r <- pint ;;
     if t =? 0 then ret None
     else if t =? 1 then ret (Some (TNode, r)) else if t =? 2 then ret (Some (TWay, r))
-    else if t =? 3 then ret (Some (TRel, r)) else pfail.
+    else if t =? 3 then ret (Some (TRel, r)) else if t =? 4 then ret (Some (TNone, r)) else pfail.
+  (* the "type" property: "" (FeatureID.Type() of unknown type bits) is observable *)
+  Definition pftype : P etype :=
+    t <- pint ;;
+    if t =? 0 then ret TNone else if t =? 1 then ret TNode else if t =? 2 then ret TWay
+    else if t =? 3 then ret TRel else pfail.
   Definition pfeature : P feature :=
-    fid <- pfid ;; ty <- petype ;; r <- pint ;; t <- ptags ;; tainted <- pbool ;;
+    fid <- pfid ;; ty <- pftype ;; r <- pint ;; t <- ptags ;; tainted <- pbool ;;
     rels <- popt (plist psummary) ;; m <- popt pmetaobs ;; g <- pgeom ;;
     ret {| f_id := fid; f_type := ty; f_ref := r; f_tags := t; f_tainted := tainted;
            f_rels := rels; f_meta := m; f_geom := g |}.
@@ -102,11 +113,11 @@ Section Parse.
     b <- pint ;; same <- pbool ;; fs <- plist pfeature ;; ret (b, same, fs).
 
   Definition pbody : P (osm * bool * list (Z * bool * list feature) * bool) :=
-    da <- posm ;; unchanged <- pbool ;; known <- pbool ;; runs <- plist prun ;;
-    (* the harness's known-finding class (a Go predicate on the input) must be Spec.adopts's:
-       some way adopted twice *)
+    da <- posm ;; unchanged <- pbool ;; known <- pint ;; runs <- plist prun ;;
+    (* the harness's known-finding class (a Go predicate on the input) must be Spec's: not packed_ok
+       (class 2), else some way adopted twice (class 1) *)
     ret (fst da, unchanged, runs,
-         snd da && Bool.eqb known (negb (nodupb Z.eqb (flat_map (adopts (fst da)) (relations (fst da)))))).
+         snd da && (known =? known_class (fst da))).
 End Parse.
 
 Definition pcase : P (osm * bool * list (Z * bool * list feature) * bool) :=
